@@ -144,7 +144,30 @@ fn main() {
                 }
             }
         }
-        c.add_sweep("registration: VirtQueue::new (N = 1, 8, 64, 256; 8 flag combinations) on the model, MMIO legacy, MMIO modern and PCI transports with the queue's regions starting in each of 7 different 4 GiB windows and two platform address skews; the addresses the register-level device received are held against the layout oracle; queue 1 of a two-queue device also created a second time after a re-initialisation; N = 8 against 16 device maxima including values that are not powers of two", ev, classes.len() as u64, true, J::obj());
+        // DMA memory at and above 2^44.
+        for tk in ALL_TKINDS {
+            let part = format!("registration:{}", tk.name());
+            let v = vlab::c06::run_high_memory::<8>(tk);
+            ev += 1;
+            for (k, d) in v {
+                c.add_violation(Violation::new("C06", k, format!("{} transport, N=8, DMA memory above 2^44: {}", tk.name(), d)), &part, J::obj().set("kind", J::s("high-memory")).set("transport", J::s(tk.name())), vec![]);
+            }
+        }
+        // A second creation while the first queue is live (at several places in memory).
+        for tk in ALL_TKINDS {
+            let part = format!("registration:{}", tk.name());
+            let mut seen = std::collections::HashSet::new();
+            for pre in 0..4usize {
+                let v = vlab::c06::run_in_use::<8>(tk, pre);
+                ev += 1;
+                for (k, d) in v {
+                    if seen.insert(k.clone()) {
+                        c.add_violation(Violation::new("C06", k, format!("{} transport, N=8, {} earlier allocations, queue already in use: {}", tk.name(), pre, d)), &part, J::obj().set("kind", J::s("in-use")).set("transport", J::s(tk.name())).set("pre", J::i(pre)), vec![]);
+                    }
+                }
+            }
+        }
+        c.add_sweep("registration: VirtQueue::new (N = 1, 8, 64, 256; 8 flag combinations) on the model, MMIO legacy, MMIO modern and PCI transports with the queue's regions starting in each of 7 different 4 GiB windows and two platform address skews; the addresses the register-level device received are held against the layout oracle; queue 1 of a two-queue device also created a second time after a re-initialisation; N = 8 against 16 device maxima including values that are not powers of two; a second creation of a live queue; DMA memory above 2^44", ev, classes.len() as u64, true, J::obj());
     }
     c.add_sample(J::obj().set("case", J::s("N=256 legacy=true indirect=false event_idx=true ap=false in_use=false max=256 -> created; queue_set(desc=P, driver=P+4096, device=P+8192), 3 pages freed once")));
     c.finish();
